@@ -311,12 +311,47 @@ type leg struct {
 	run  func(u *urlutil.URL) (u2 *urlutil.URL, enc []byte, err error)
 }
 
+// heldOthers are marshalled between a MarshalText and the use of its result.
+var heldOthers = func() (us []*urlutil.URL) {
+	for _, t := range []string{"http://other.example/a-much-longer-path-than-most/of/the/enumerated/urls?with=a&query=too#frag", "x:y", "/"} {
+		u, err := urlutil.Parse(t)
+		if err != nil {
+			panic(err)
+		}
+
+		us = append(us, u)
+	}
+
+	return us
+}()
+
 var legs = []leg{{
 	name: "text",
 	run: func(u *urlutil.URL) (u2 *urlutil.URL, enc []byte, err error) {
 		enc, err = u.MarshalText()
 		if err != nil {
 			return nil, nil, fmt.Errorf("MarshalText: %w", err)
+		}
+
+		u2 = &urlutil.URL{}
+		err = u2.UnmarshalText(enc)
+
+		return u2, enc, err
+	},
+}, {
+	// The marshalled text is held while other URLs are marshalled (directly
+	// and by encoding/json) and decoded only afterwards: MarshalText's result
+	// belongs to the caller and may not be a buffer that a later call reuses.
+	name: "text-held-across-calls",
+	run: func(u *urlutil.URL) (u2 *urlutil.URL, enc []byte, err error) {
+		enc, err = u.MarshalText()
+		if err != nil {
+			return nil, nil, fmt.Errorf("MarshalText: %w", err)
+		}
+
+		for _, o := range heldOthers {
+			_, _ = o.MarshalText()
+			_, _ = json.Marshal(o)
 		}
 
 		u2 = &urlutil.URL{}
